@@ -4606,7 +4606,9 @@ func (op *op) UnmarshalBinary(data []byte) error {
 		}
 		op.value = 0
 	case opTypeAddRoaring, opTypeRemoveRoaring:
-		if len(data) < int(13+4+op.value) {
+		// Compare before adding: a length near the top of the range would
+		// wrap around and pass.
+		if len(data) < 13+4 || op.value > uint64(len(data)-13-4) {
 			return fmt.Errorf("op data truncated - expected %d, got %d", 13+op.value, len(data))
 		}
 		op.opN = int(binary.LittleEndian.Uint32(data[13:17]))
